@@ -55,16 +55,8 @@ def nextW : List UInt32 → Option UInt32
       some (smallSigma1 w2 + w7 + smallSigma0 w15 + w16)
   | _ => none
 
-/-- extend a newest-first schedule by `n` words (stops early if fewer than 16 words are present,
-    i.e. if the input was not a block) -/
-def extend : Nat → List UInt32 → List UInt32
-  | 0, ws => ws
-  | n+1, ws => match nextW ws with
-    | some w => extend n (w :: ws)
-    | none => ws
-
 /-- §6.2.2 step 1: `W_0 … W_63` for the block `M` (`W_t = M_t` for `t < 16`). -/
-def schedule (block : Bytes) : List UInt32 := (extend 48 (wordsBE block).reverse).reverse
+def schedule (block : Bytes) : List UInt32 := (extendSchedule nextW 48 (wordsBE block).reverse).reverse
 
 /-- §6.2.2 step 3, one value of `t`. -/
 def round (r : Regs) (k w : UInt32) : Regs :=
